@@ -122,6 +122,8 @@ def snapshot(obj):
 
 PROBE_ITS = ([0], [1, 2], [3, 10, 7, 5], [2, 0, 1, 3, 3])
 PROBE_VARS = ([], ['A'], ['B', 'T2', 'Z'])
+# requests naming the temporal columns themselves (probed on PROBE_ITS[1:3])
+PROBE_VARS_T = (['t', 'A'], ['B', 'it'], ['it', 't'])
 
 
 class System:
@@ -249,7 +251,8 @@ class System:
         viol = []
         for rl in LEVELS:
             for J in PROBE_ITS:
-                for W in PROBE_VARS:
+                for W in PROBE_VARS + (PROBE_VARS_T if J in PROBE_ITS[1:3]
+                                       else ()):
                     Jarg, Warg = list(J), list(W)
                     param = dict(self.param)
                     try:
@@ -280,7 +283,7 @@ class System:
                                        if k[0] in sj and k[2] == rl
                                        and k[1] != 'it'} | {'t'})
                     else:
-                        want = sorted(set(W) | {'t'})
+                        want = sorted((set(W) | {'t'}) - {'it'})
                     have = sorted(k for k in got if k != 'it')
                     if have != want:
                         viol.append((f"C13:read-columns:{tag}",
